@@ -41,8 +41,32 @@ class Site:
         self.discharged_by = None
 
     @property
+    def owner(self):
+        return owner_of(self.fn)
+
+    @property
     def key(self):
-        return f"{self.fn.path}|{self.kind}|{self.detail}"
+        return f"{self.owner}|{self.kind}|{self.detail}"
+
+
+def owner_of(fn):
+    """edit-stable home of a site: the self type of the enclosing impl, else the module of the (enclosing) free fn —
+    so that extracting a helper method or renaming a private function does not move audited sites"""
+    im = fn.impl
+    if im and im.get("self_ty"):
+        return im["self_ty"]
+    p = fn.path
+    facts = getattr(fn, "facts", None)
+    for _ in range(4):
+        par = fn.parent
+        if par and facts is not None and par in facts.fns:
+            fn = facts.fns[par]
+            if fn.impl and fn.impl.get("self_ty"):
+                return fn.impl["self_ty"]
+            p = fn.path
+        else:
+            break
+    return p.rsplit("::", 1)[0] if "::" in p else p
 
 
 def producer_of(t):
@@ -292,7 +316,12 @@ def audit(ctx, F, cg, entries, prop, configs=("lib",), extra_discharge=(), floor
         rch = cgc.reach(entries) if reach is None or Fc is not F else reach
         budget = {}
         for a in allow:
-            budget[(a["fn"], a["kind"], a["detail"])] = [a["count"], a["reason"]]
+            k0 = (a["owner"], a["kind"], a["detail"])
+            if k0 in budget:
+                budget[k0][0] += a["count"]
+                budget[k0][1] += " / " + a["reason"]
+            else:
+                budget[k0] = [a["count"], a["reason"]]
         counts = {"discharged": {}, "allowed": 0}
         unall = {}
         for p in sorted(rch):
@@ -305,7 +334,7 @@ def audit(ctx, F, cg, entries, prop, configs=("lib",), extra_discharge=(), floor
                     counts["discharged"][r] = counts["discharged"].get(r, 0) + 1
                     ctx.ok(rule, {"site": s.key, "by": r}, sample=(counts["discharged"][r] == 1))
                     continue
-                k = (fn.path, s.kind, s.detail)
+                k = (s.owner, s.kind, s.detail)
                 b = budget.get(k)
                 if b and b[0] > 0:
                     b[0] -= 1
